@@ -17,7 +17,9 @@ import shiftlib as sl
 from common import pb, u, Time, da, materialise
 
 PID = "C03"
-KINDS = {"f8": np.float64, "f4": np.float32, "c16": np.complex128, "c8": np.complex64}
+KINDS = {"f8": np.float64, "f4": np.float32, "c16": np.complex128, "c8": np.complex64, "i2": np.int16, "i1": np.int8}
+REAL = ("f8", "f4", "i2", "i1")
+INTS = ("i2", "i1")       # plain Signal has no dtype contract; the result dtype for integer data is not stated: values are judged
 EPOCH = Time("2020-01-01T00:00:00", format="isot", precision=9)
 DAYTOL = Fraction(1, 2 ** 50)
 
@@ -40,7 +42,7 @@ def variants(case, idx, rnd, n):
     out = []
     whole = all(s % 4 == 0 for s in case["S"])
     for j in range(n):
-        kind = ["c16", "f8", "c8", "f4"][(idx + j) % 4]
+        kind = ["c16", "f8", "c8", "f4", "i2", "c16", "f8", "i1"][(idx + j) % 8]
         cls = "Signal"
         if kind in ("c16", "c8") and len(case["ssh"]) >= 1 and rnd.random() < 0.4:
             cls = "BasebandSignal"
@@ -81,7 +83,8 @@ def replay_case(tab, case, var):
     """-> (list of (key, desc), info)"""
     out = []
     N, ssh, shsh = case["N"], tuple(case["ssh"]), tuple(case["shsh"])
-    real = var["kind"] in ("f8", "f4")
+    real = var["kind"] in REAL
+    skip = ("dtype",) if var["kind"] in INTS else ()
     data, cols = sl.build_data(tab, N, ssh, real, KINDS[var["kind"]])
     z = sl.make_signal(data, var["cls"], sl.RATES[var["rate"]], EPOCH if var["start"] else None, var["dask"])
     arg = shift_arg(case, var, z)
@@ -99,7 +102,7 @@ def replay_case(tab, case, var):
     except Exception as e:  # noqa
         return [("time_shift:raised", "%s raised %r" % (what, e))], info
     # ---- metadata unchanged
-    d = sl.meta_diff(m0, sl.meta_of(y))
+    d = sl.meta_diff(m0, sl.meta_of(y), skip=skip)
     if d or y.shape != z.shape:
         out.append(("time_shift:metadata", "%s changed %s (shape %r -> %r)" % (what, d, z.shape, y.shape)))
     try:
@@ -135,7 +138,7 @@ def replay_case(tab, case, var):
     # ---- crop = True is the crop = False result with exactly the edge samples removed
     keep = case["keep"]
     ac = materialise(yc).reshape(len(yc), a.shape[1])
-    d = sl.meta_diff(m0, sl.meta_of(yc), skip=("start",))
+    d = sl.meta_diff(m0, sl.meta_of(yc), skip=("start",) + skip)
     if d or yc.shape[1:] != z.shape[1:]:
         out.append(("time_shift:crop:metadata", "%s crop=True changed %s" % (what, d)))
     if len(yc) != len(keep):
@@ -345,8 +348,8 @@ def run(chk):
     rnd = random.Random(chk.seed)
     t = "full" if thorough else "quick"
     res = sl.parallel({
-        "mc": lambda: tlc.run("MC_TimeShift", "MC_TimeShift_%s.cfg" % t, workers=8, timeout=3000),
-        "neg": lambda: tlc.run("MC_TimeShift", "Neg_TimeShift_pinned.cfg", workers=1, timeout=900),
+        "mc": lambda: tlc.run("MC_TimeShift", "MC_TimeShift_%s.cfg" % t, workers=8, timeout=3000, heap="3g"),
+        "neg": lambda: tlc.run("MC_TimeShift", "Neg_TimeShift_pinned.cfg", workers=1, timeout=900, heap="1g"),
         "cases": lambda: sl.gen("Gen_TimeShift", "Gen_TimeShift_%s.cfg" % t, workers=2),
         "table": lambda: sl.gen("Gen_Delay", "Gen_Delay_time_%s.cfg" % t, workers=5, timeout=3000),
     })
